@@ -347,6 +347,8 @@ def new_generic(rng, depth=0):
 
 def attach(rng, parent, child, index=None):
     """valid usage: detached child gets a locator of the parent's grid (as armi's own builders do), then add/insert"""
+    if type(child).__name__ == "DerivedShape" and any(type(k).__name__ == "DerivedShape" for k in parent):
+        raise SkipOp()  # at most one DerivedShape per parent (see the block family)
     if parent.spatialGrid is not None:
         used = {(k.spatialLocator.i, k.spatialLocator.j) for k in list(parent) if k.spatialLocator is not None and getattr(k.spatialLocator, "grid", None) is parent.spatialGrid}
         while True:
@@ -576,6 +578,10 @@ def block_op(rec, rng, b, op, hist, detached, roots, w, gen):
         if not cands:
             raise SkipOp()
         c = rng.choice(cands)
+        if type(c).__name__ == "DerivedShape" and any(type(k).__name__ == "DerivedShape" for k in b):
+            # a block holds at most one DerivedShape (it is "whatever the others leave"; two of them define each other and armi
+            # recurses without end when asked for a volume): not a model the property speaks about
+            raise SkipOp()
         b.add(c)
         detached[:] = [d for d in detached if d is not c]
         hist.append("block.re-add-elsewhere")
